@@ -28,7 +28,7 @@ def check_c10(case, ctx):
     d = pd(cfg, teams, ctx)
     for lab in pred_labels(case):
         ctx.label(lab)
-    if not (isinstance(d, float) and math.isfinite(d) and -1e-12 <= d <= 1 + 1e-12):
+    if not (isinstance(d, (int, float)) and not isinstance(d, bool) and math.isfinite(d) and -1e-12 <= d <= 1 + 1e-12):
         raise Violation("range", f"{kind}: predict_draw = {d!r} for {n} teams")
     ctx.maxi("value", d)
     perm = case["perm"]
